@@ -72,7 +72,7 @@ struct mon {
 struct wstate {
         struct genst gen;
         struct mon M;
-        uint8_t trig_left, flag_left, last_svc_ok, pad;
+        uint8_t trig_left, flag_left, last_svc_ok, reinit_left;
 };
 
 struct wint {
